@@ -686,7 +686,7 @@ async fn run_case(case: &Case) -> CaseOut {
 
 pub fn run<C: Codec>(tier: Tier) -> i32 {
     let mut ctx = Ctx::<C>::new("C12", tier);
-    ctx.assumptions.push("which of the three IIN2 error bits is used is not asserted; silence vs IIN2 reply for no-ack functions / CONFIRM with unacceptable objects is not asserted; fragments shorter than 2 bytes (no sequence number to answer) are not asserted".into());
+    ctx.assumptions.push("which of the three IIN2 error bits is used is not asserted; a no-acknowledge function whose every object header parses must not be answered (usable objects or not); silence vs IIN2 reply for no-acknowledge functions / CONFIRM whose objects do NOT parse is not asserted; fragments shorter than 2 bytes (no sequence number to answer) are not asserted".into());
     ctx.run::<Replies>();
     ctx.finish()
 }
